@@ -24,7 +24,7 @@ ASSUMPTIONS = ['sequential histories: under concurrency tokens < events is legit
 PROBES = ['post_on_full', 'lifo_on_full', 'clear_on_empty', 'clear_racing_posts']
 PLAN = {
   'quick': {'strata': {'locking-deque': 6000, 'active-object': 2500, 'queued-chart': 2500, 'concurrent': 3000}, 'wall_s': 300, 'chunk': 200, 'min_conclusive': 1000},
-  'thorough': {'strata': {'locking-deque': 200000, 'active-object': 60000, 'queued-chart': 60000, 'concurrent': 80000}, 'wall_s': 900, 'chunk': 500, 'min_conclusive': 10000},
+  'thorough': {'strata': {'locking-deque': 200000, 'active-object': 60000, 'queued-chart': 60000, 'concurrent': 80000}, 'wall_s': 900, 'chunk': 500, 'min_conclusive': 1000},
 }
 OPS = ['append', 'appendleft', 'pop', 'popleft', 'clear', 'len', 'consume']
 
@@ -48,7 +48,7 @@ def generate(seed, stratum, tier):
     return {'target': 'concurrent', 'cap': cap, 'threads': threads, 'consumer': True if race else rng.random() < 0.5, 'ops': [],
             'sched': common.draw_sched(rng, grans=('line', 'opcode'), weights=(1, 2), expected_steps=300, policies=('sticky', 'pct'))}
   cap = rng.randrange(2, 7)
-  n = rng.randrange(3, 30)
+  n = common.span(rng, 3, 30, common.deep(rng), 4)
   consumer_only = stratum == 'locking-deque' and rng.random() < 0.4
   if stratum == 'locking-deque':
     if consumer_only:
